@@ -470,12 +470,13 @@ pub fn run(cli: &Cli) {
         max_attempts: 3,
     };
     // (b) thorough only: one transaction, one kind per class of the stream state machine
-    // (submitted, preconfirmation, final, preconfirmation squeeze-out), two levels deeper
+    // (submitted, preconfirmation, final, preconfirmation squeeze-out), at most 2 subscribe
+    // calls, one level deeper
     let deep = SubSubject {
         name: "status-subscriptions-single-tx-deep".into(),
         kinds_x: vec![0, 1, 4, 3],
         kinds_y: vec![],
-        max_attempts: 3,
+        max_attempts: 2,
     };
     if let Some(path) = &cli.replay {
         let rf = load_replay(path);
@@ -493,7 +494,7 @@ pub fn run(cli: &Cli) {
     let r = explore(&wide, &b);
     run.add(r);
     if thorough {
-        let b = Bounds::new(depth + 2, cli).deviations(1).wall(900).states(40_000_000);
+        let b = Bounds::new(depth + 1, cli).deviations(1).wall(900).states(40_000_000);
         let r = explore(&deep, &b);
         run.add(r);
     }
@@ -501,7 +502,7 @@ pub fn run(cli: &Cli) {
         &mut run,
         &[&C_LIMIT, &C_FAILED_MARKER, &C_END_AFTER_FINAL, &C_END_EXPIRED, &C_COMPLETE_CHECKS, &C_COMPLETE_FINAL, &C_LOSSY],
     );
-    run.assume("2 subscription permits, subscription ttl 10 s (one Advance(ttl) per history), real MpscChannel buffer of 3, at most 3 subscribe calls per history");
+    run.assume("2 subscription permits, subscription ttl 10 s (one Advance(ttl) per history), real MpscChannel buffer of 3, at most 3 subscribe calls per history (2 in the single-transaction exploration of the thorough tier)");
     run.assume("final = Success, Failure, SqueezedOut, PreConfirmationSqueezedOut (harness' own definition); 'nothing after the first final status' is read as: no status published after the first final status published since the subscription is ever delivered");
     run.assume("completeness clause is demanded only of subscribers that the harness saw empty (poll pending) before every publication for their tx and whose subscription has not reached the subscription ttl; FailedStatus markers are not statuses");
     run.assume("a refused subscribe (permit limit) is allowed at any time; the statement says nothing about when subscribing must succeed");
